@@ -62,7 +62,7 @@ def factory(sc):
     if "ops" in sc:
         kw = {"max_steps": 900, "horizon": 60.0, "deviations": tuple(sc.get("dev", ("drop",)))}
         return netsim.resolve_tickets(dict(sc["cfg"])), sc["ops"], [CongestionMonitor()], kw, goal
-    kw = {"max_steps": 700, "horizon": 60.0, "deviations": tuple(sc.get("dev", ("drop", "dup", "delay", "late")))}
+    kw = {"max_steps": 700, "horizon": 60.0, "deviations": tuple(sc.get("dev", ("drop", "dup", "delay", "late", "hold")))}
     return netsim.resolve_tickets(dict(CFGS[sc["cfg"]])), SCRIPTS[sc["script"]], [CongestionMonitor()], kw, goal
 
 
